@@ -17,7 +17,16 @@ func MakeHostnameRoutingHandler(apiEndpoint string, apiHandler http.Handler, web
 			}
 		}
 
-		if host == apiEndpoint || strings.HasSuffix(host, apiSuffix) {
+		isAPIHost := host == apiEndpoint || strings.HasSuffix(host, apiSuffix)
+		isWebsiteHost := host == websiteEndpoint || strings.HasSuffix(host, websiteSuffix)
+		if isAPIHost && isWebsiteHost && len(websiteSuffix) > len(apiSuffix) {
+			// The website endpoint is itself a sub-domain of the API endpoint (as
+			// with the default domains): the more specific endpoint wins, otherwise
+			// website hosts would be served, and mutated, through the API.
+			isAPIHost = false
+		}
+
+		if isAPIHost {
 			apiHandler.ServeHTTP(w, r)
 			return
 		}
